@@ -6,7 +6,7 @@ regenerated from /repo) and §10.S (the seed table produced by tools/seed_table.
 import os, re, subprocess, sys
 HERE = os.path.dirname(os.path.dirname(os.path.abspath(__file__)))
 d = open(os.path.join(HERE, "DESIGN.md")).read()
-i0 = d.index("### 10.16 C16 (as built)")
+i0 = re.search(r"(?m)^### 10\.16 C16 \(as built\)", d).start()
 head = d[:i0]
 iR = d.index("### 10.R Rounds after the first build")
 tailR = d[iR:]
@@ -14,7 +14,7 @@ iS = tailR.find("### 10.S ")
 if iS >= 0:
   tailR = tailR[:iS]
 secs = open(os.path.join(HERE, "notes", "DESIGN_10_sections.md")).read()
-secs = secs[secs.index("### 10."):]
+secs = secs[re.search(r"(?m)^### 10\.", secs).start():]
 j = secs.find("### Outside these subsections")
 if j >= 0:
   secs = secs[:j]
